@@ -53,4 +53,29 @@ var plans = map[string]Plan{
 			"the undocumented `nextop` separator line is outside the domain (QasmToBmMatrices does not return on it)",
 		},
 	},
+	"C04": {
+		Pkg: "c04",
+		Runs: []Run{
+			{Test: "^TestProps$/^sim_history$", Checks: checks(1500, 60000), Shards: shards(4, 16)},
+		},
+		Assumptions: []string{
+			"per-opcode delay maps are single-valued (a multi-valued distribution samples the global math/rand/v2 source)",
+			"a breach preceded by a recorded finding's precondition monitor (D4: i2rw while own recv high; D5: r2owa starting while received high) is counted as excluded; a breach without one is a violation",
+		},
+	},
+	"C08": {
+		Pkg: "c08",
+		Runs: []Run{
+			{Test: "^TestProps$/^ambiguity$", Checks: checks(40000, 500000), Shards: shards(4, 16)},
+			{Test: "^TestProps$/^roundtrip$", Checks: checks(25000, 300000), Shards: shards(4, 16)},
+			{Test: "^TestProps$/^widths$", Checks: checks(15000, 150000), Shards: shards(4, 16)},
+		},
+		Fuzz: []Fuzz{{Target: "FuzzImportString", Time: 3 * time.Minute}},
+		Assumptions: []string{
+			"ambiguity is decided by generating from each notation's language (plus mutations and a corpus) and running every matcher: overlaps without a short witness are out of reach",
+			"FloPoCo types need external tools (fp2bin/bin2fp) that are absent: outside the round-trip domain; Signed.ExportString returns not implemented: outside the round-trip domain",
+			"any NaN must come back as a NaN (payload not compared); everything else is compared on bits",
+			"the most negative linear-quantiser pattern is rejected by import explicitly and is not treated as a value of the type",
+		},
+	},
 }
